@@ -25,10 +25,12 @@ BBoxVecs(big) == IF big THEN {<<l, t, w, h, 500000>> : l \in BigPos, t \in {0}, 
 UnivVecs(big) == IF big THEN {<<x, y, 0, a, h>> : x \in {0}, y \in BigPos, a \in {1000000}, h \in BigSize}
                  ELSE {<<x, y, 0, a, h>> : x \in Pos, y \in Pos2, a \in Asp, h \in Size}
 Angles == {0, 1, -2, 5, 99}          \* quarter turns of the base angle; 99 = no angle (then the angle coordinate is not varied)
+MixedAngles == {98, 97}              \* 98: the first box has no angle, the second has the angle coordinate; 97: the other way round
 FieldName(ty, i) == IF ty = "bbox" THEN <<"left", "top", "width", "height", "confidence">>[i]
                     ELSE <<"xc", "yc", "angle", "aspect", "height">>[i]
 EqCase(ty, u, v, k, field) ==
-  [kind |-> "eq", ty |-> ty, u |-> u, v |-> v, k |-> k, field |-> field, req |-> RequiredVec(u, v), eqspec |-> Eq(u, v)]
+  [kind |-> "eq", ty |-> ty, u |-> u, v |-> v, k |-> k, field |-> field,
+   req |-> IF k \in MixedAngles THEN RequiredMixed(u, v) ELSE RequiredVec(u, v), eqspec |-> Eq(u, v)]
 PairsOfDeltas == {<<5, -9>>, <<-9, 9>>, <<5, 11>>, <<-20, 5>>, <<11, -11>>, <<9, 1000>>}
 
 Init == stage = 0 /\ c = [kind |-> "init"]
@@ -49,7 +51,7 @@ Next ==
                 c' = [kind |-> "conv", box |-> PJ(b), ltwh |-> ToLtwh(b), back |-> PJ(FromLtwh(ToLtwh(b))), aspect |-> Aspect(b)]
         \/ /\ c.g = "eq"
            /\ \E u \in (IF c.ty = "bbox" THEN BBoxVecs(c.big) ELSE UnivVecs(c.big)), d \in (IF c.big THEN BigDeltas ELSE Deltas),
-                 k \in (IF c.ty = "bbox" THEN {99} ELSE Angles) :
+                 k \in (IF c.ty = "bbox" THEN {99} ELSE IF c.i = 3 THEN Angles \cup MixedAngles ELSE Angles) :
                 /\ ~(c.ty = "univ" /\ c.i = 3 /\ k = 99)
                 /\ Assert(OneCoordinate(u, c.i, d), "BoxEq: one-coordinate verdict")
                 /\ c' = EqCase(c.ty, u, Bump(u, c.i, d), k, FieldName(c.ty, c.i))
